@@ -86,7 +86,7 @@ def run(rep, tier, seed):
                      "is refuted by TLC (lexer blocked forever) - reachable only through a runtime error in the parser")
     if tier == "thorough":
         apalache_inductive(rep, wd)
-    fams = [("JetStruct.tla", "MC_Struct_%s.cfg" % tier, "struct", ["A", "C"] if tier == "quick" else ["A", "B", "C", "D"]),
+    fams = [("JetStruct.tla", "MC_Struct_%s.cfg" % tier, "struct", ["A", "C", "E"] if tier == "quick" else ["A", "B", "C", "D", "E"]),
             ("JetLexemes.tla", "MC_Lexemes_quick.cfg", "lexeme", ["A"] if tier == "quick" else ["A", "C"])]
     if tier == "thorough":
         fams.append(("JetLexemes.tla", "MC_Lexemes_thorough.cfg", "lexeme3", ["A"]))
